@@ -7,8 +7,47 @@ def run(F, ctx):
         "Decides one clause of proof validity, by sibling agreement inside the prover: a negation leaf must name a pattern with no matching fact, and the facts of a relation "
         "defined by rules live in the derived data, not in the base data. Rule: in prove_body, the arm that handles a negated atom reads every fact source of the proof "
         "context (base data, derived data) that the arm for a positive atom reads. Otherwise `q(X) <- e(X,Y), !d(Y)` with d derived is 'proved' through a Y for which d(Y) "
-        "holds. Not decided: that bindings satisfy the clause, that children are exactly the body atoms, that leaves are stored facts (values of unification at run time)."
+        "holds. (b) When the prover matches an atom against stored tuples, a variable that already received a value from an earlier position of the same atom is looked up and "
+        "compared (a miss binds it, a hit that differs rejects the tuple) - never rebound or skipped. Not decided: that bindings satisfy the clause, that children are exactly the body atoms, that leaves are stored facts (values of unification at run time)."
     )
     ctx.rule("R-C21-a", "prove_body: a negated atom is checked against the same fact sources as a positive atom", floor=1)
     provrules.check(F, ctx, "provenance::prove_body::prove_body", "C21", "a proof tree contains a negation leaf for a fact that holds (an invalid derivation)")
+    ctx.end_rule()
+
+    # ---- b: a variable that occurs twice in one atom is bound once and compared afterwards
+    import re
+    from ..core import CheckError, op_local
+    from . import common
+    ctx.rule("R-C21-b", "unification of an atom with a stored tuple: a variable already bound by an earlier position is compared, not rebound or skipped", floor=1)
+    f = F.fn("provenance::unification::find_matching_tuples")
+    done = False
+    for (bb, adt, pl, mm, other) in f.enum_switches("provenance::unification::BoundTerm"):
+        if "Unbound" not in mm:
+            continue
+        done = True
+        targets = list(mm.values()) + ([other] if other is not None else [])
+        region = f.arm_region(targets, mm["Unbound"], stop={bb})
+        gets = [c for c in f.normal_calls() if c.bb in region and re.search(r"HashMap::<std::string::String, value::Value>::get(::<.*>)?$", c.static_args or "")]
+        ins = [c for c in f.normal_calls() if c.bb in region and re.search(r"HashMap::<std::string::String, value::Value>::(insert|entry)$", c.static_args or "")]
+        gd = set()
+        for g_ in gets:
+            gd |= f.derive({g_.dst["l"]}, through_calls=False)
+        eqs = [c for c in f.normal_calls() if c.bb in region and ((c.resolved or "").endswith("values_equal") or re.search(r"<value::Value as std::cmp::PartialEq>::(eq|ne)$", c.static_args or "")) and any(op_local(a) in gd for a in c.args)]
+        # the comparison's `differs` side must be able to reject the tuple (it is branched on)
+        branched = [c for c in eqs if common.branch_on_result(f, c)]
+        # inserts only where the lookup missed
+        ok_ins = True
+        for g_ in gets:
+            for (b2, a2, p2, m2, o2) in f.enum_switches("std::option::Option"):
+                if p2.get("l") in f.derive({g_.dst["l"]}, through_calls=False) | {g_.dst["l"]} and "Some" in m2:
+                    none_t = m2.get("None", o2)
+                    for c in ins:
+                        if not f.dominates(none_t, c.bb):
+                            ok_ins = False
+        ok = bool(gets) and bool(branched) and bool(ins) and ok_ins and not any(re.search(r"::entry$", c.static_args or "") for c in ins)
+        ctx.site("find_matching_tuples: repeated variable compared with its first binding", f.where(mm["Unbound"]), ok=ok, lookups=len(gets), comparisons=len(branched), inserts=len(ins))
+        if not ok:
+            ctx.violation("provenance::unification::find_matching_tuples:R-C21-b:repeated-variable-not-compared", "when an atom repeats a still-unbound variable (`link(G, N, N)`), the second position is not compared with the value bound by the first: a stored tuple that violates the equality (link(1,2,3)) matches, and the proof step's instantiated body atom is not its child's conclusion", f.where(mm["Unbound"]))
+    if not done:
+        raise CheckError("find_matching_tuples: no dispatch over BoundTerm with an Unbound arm")
     ctx.end_rule()
